@@ -235,6 +235,8 @@ def op_literals(task):
     viol, cases = [], 0
     for lit in ints + floats:
         for fol in (FOLLOW if thorough else FOLLOW[:3]):
+            if fol in ("+", "-") and lit[-1:] in "eEpP":
+                continue      # C's pp-number rule: `0xe+` is one (invalid) preprocessing number, MAXIMAL_MUNCH is right
             cases += 1
             r = lex(lit + fol)
             if r["exc"]:
